@@ -183,6 +183,8 @@ def make_trace(tid, rng, nops=25, **opt):
                                     # header fields a reader must not let influence the mapping
                                     hdr_extra={"compat": rng.choice([0, 1, 0xFF00]), "autoclear": rng.choice([0, 1, 3]), "refcount_order": rng.choice([4, 0, 6]),
                                                "refcount_clusters": rng.choice([1, 0, 7])},
+                                    # incompatible bit 0 ("dirty": refcounts may be stale - the mapping is not affected)
+                                    incompat_extra=rng.choice([0, 0, 1]),
                                     file_id=fid, data_fid=dfid, csalt=csalt)
     blen = None
     bpad = 0
@@ -190,6 +192,11 @@ def make_trace(tid, rng, nops=25, **opt):
         blen = back * cs - (rng.choice([0, 0, cs // 32, cs // 2]) if (ext and back < nc) else 0)
         blen = max(cs, blen)
     backing = (lambda: disk.ParentStream(blen)) if back >= 0 else None
+    if back >= 0 and rng.random() < 0.25:
+        # the header names a backing file, the caller opts out of it (ALLOW_NO_BACKING_FILE): what the image does not hold reads as zeroes
+        from dissect.hypervisor.disk import qcow2 as _q
+        backing = lambda: _q.ALLOW_NO_BACKING_FILE   # noqa: E731
+        back, blen = -1, None
     b = disk.Built(open=lambda: _open(vf, dvf, backing), cell=cellB, size=size_b, bases={0: info["data_base"], 1: 0}, has_parent=back >= 0,
                    fids={0: fid, 1: dfid}, csalt=csalt)
     s = b.open()
